@@ -126,7 +126,8 @@ def run_scenario(sc: dict):
         cons = AIOKafkaConsumer(
             bootstrap_servers="broker0:9092", group_id=GROUP, client_id=name, auto_offset_reset="earliest",
             request_timeout_ms=REQUEST_MS, session_timeout_ms=SESSION_MS, heartbeat_interval_ms=HEARTBEAT_MS,
-            rebalance_timeout_ms=REBALANCE_MS, retry_backoff_ms=BACKOFF_MS, metadata_max_age_ms=sc.get("metadata_max_age_ms", 4000),
+            rebalance_timeout_ms=spec.get("rebalance_timeout_ms", REBALANCE_MS), retry_backoff_ms=BACKOFF_MS,
+            metadata_max_age_ms=sc.get("metadata_max_age_ms", 4000),
             enable_auto_commit=spec.get("auto_commit", True), auto_commit_interval_ms=spec.get("commit_interval_ms", 900),
             partition_assignment_strategy=tuple(ASSIGNORS[a] for a in spec["assignors"]), fetch_max_wait_ms=100,
             max_poll_records=spec.get("max_poll_records"))
@@ -137,6 +138,11 @@ def run_scenario(sc: dict):
             await cons.start()
         except Exception as e:  # noqa: BLE001
             log.emit("ClientError", c=name, where="start", err=type(e).__name__)
+            stopped[name] = True            # never became a member: not "live" for the end-of-run checks
+            try:
+                await cons.stop()
+            except BaseException:  # noqa: BLE001
+                pass
             return
         log.emit("Started", c=name)
         n = 0
